@@ -2,12 +2,13 @@
 import re
 from engines import positive_edges, adaptor_chain
 from prov import Prov, params_of, field_names
+from props.shared import path_reduction_key
 
 CLAIM = ("(SHORTCUT) HpoTerm::distance_to_term and HpoTerm::path_to_term produce every result from the MINIMUM over all common ancestors "
          "(the two terms included): a result that does not come from that reduction is allowed only under an identity or direct-parent test, "
          "never under an ancestor-closure test (child_of / parent_of / all_parents.contains) - such a shortcut returns the upward chain, which is "
          "not minimal as soon as a level-skipping is_a edge offers a shorter detour over a higher common ancestor; (SELECT) the four functions "
-         "reduce with min / min_by_key, never max; (ROLE) the minimised quantity is distance(self, a) + distance(other, a) for the SAME candidate a; "
+         "reduce with min / min_by_key, never max, and path_to_ancestor compares its candidate paths by LENGTH (a plain min() on Vec paths is lexicographic); (ROLE) the minimised quantity is distance(self, a) + distance(other, a) for the SAME candidate a; "
          "(FIELD) the candidates are the inclusive common ancestors; distance_to_ancestor answers 0 on identity, 1 on a direct parent and adds 1 "
          "per recursion step; path_to_ancestor prepends the parent it recursed through.")
 NOT_DECIDED = ("that the recursion over parents yields shortest chains and valid walks for every DAG, symmetry of the distance, and absence when the "
@@ -114,9 +115,7 @@ def run(ck, prog, ctx):
         bad = [t for fb, bi, t in reds if t.callee.method.startswith("max")]
         ck.ob("SELECT", name + "/min", not bad, "%s reduces with %s" % (name, sorted({t.callee.method for fb, bi, t in reds})), where=b.where())
         if name == "path_to_ancestor":
-            keyfn = [t for fb, bi, t in reds if t.callee.method == "min_by_key"]
-            ok = any(any(a.kind == "const" and "len" in (a.const.get("fn") or "") for a in t.args[1:]) for t in keyfn)
-            ck.ob("SELECT", name + "/key", ok or not keyfn, "path_to_ancestor picks the path with the smallest length", where=b.where())
+            path_reduction_key(ck, "SELECT", prog, pv, reds)
         if name == "path_to_term":
             for fb, bi, t in reds:
                 if t.callee.method == "min_by_key" and len(t.args) > 1:
